@@ -9,6 +9,7 @@ process-wide numpy RNG (which is one of the nondeterminism sources under test).
 from __future__ import annotations
 
 import random
+import re
 from typing import Any, Optional
 
 from . import core
@@ -445,7 +446,14 @@ def gen_formula(rng: random.Random, u: dict, *, rich: bool = True, structured_p:
     def atom_or_shared() -> str:
         # later parts of a structured formula often reuse a factor of an earlier part (it is then evaluated / encoded once)
         if parts_done[0] > 0 and atoms and rng.random() < 0.4:
-            return rng.choice(atoms[: max(1, len(atoms))])["expr"]
+            a_ = rng.choice(atoms[: max(1, len(atoms))])
+            m_ = re.match(r"^(center|scale|standardize)\((`[^`]+`|\w+)\)$", a_["expr"])
+            if m_ and rng.random() < 0.5:
+                # the same stateful CALL, nested in another factor of a later part (state is keyed by the call, not the factor)
+                b_ = dict(a_, expr=f"I({a_['expr']} ** 2)", cls="num_py")
+                atoms.append(b_)
+                return b_["expr"]
+            return a_["expr"]
         return atom()["expr"]
 
     def part(nmax: int) -> str:
